@@ -519,6 +519,7 @@ def suite(prop, rng, tier):
     elif prop == "C04":
         rnd(MENU_ALL, N(70, 700), (6, 18))
         cases += known_fault_bases()
+        cases += consumer_fault_bases()
     elif prop == "C05":
         rnd(MENU_ALL, N(300, 5000), (10, 60))
     elif prop == "C06":
@@ -542,6 +543,12 @@ def suite(prop, rng, tier):
         rnd(MENU_MAP_CORE + scale(MENU_MAP_ENTRY, 4), N(300, 5000), (10, 40))
     elif prop == "C12":
         rnd(MENU_MAP_CORE + scale(MENU_MAP_ENTRY, 1) + MENU_SET_CORE, N(200, 3000), (10, 40), ncls=3)
+        # the bulk constructors follow the same stored-key rule (the first of equal keys is kept): few classes,
+        # arrays and iterators with several groups of equal keys
+        rnd([(2, lambda g: g.from_iter(m_reg(g))), (2, lambda g: g.from_iter(m_reg(g), arr=True)),
+             (2, lambda g: g.s_from_iter(s_reg(g))), (3, lambda g: g.s_from_iter(s_reg(g), arr=True)),
+             (2, lambda g: g.s_extend(s_reg(g))), (1, lambda g: g.lookup(m_reg(g), 22)), (1, lambda g: g.s_lookup(s_reg(g), 122))],
+            N(120, 2000), (4, 12), ncls=3, caps=[4, 8, 4, 8])
         # larger containers: the stored-key rules must hold at every slot position
         rnd([(8, lambda g: g.ins(m_reg(g))), (2, lambda g: g.lookup(m_reg(g), 22)), (1, lambda g: g.rem(m_reg(g), 31)),
              (6, lambda g: g.s_ins(s_reg(g))), (1, lambda g: g.s_rem(s_reg(g), 131)), (1, lambda g: g.s_lookup(s_reg(g), 122)),
@@ -816,6 +823,23 @@ def known_fault_bases():
     b.append("0 0 0 0 3 3 2 2 ; 10 0 1 5 2 7 ; 10 0 3 6 4 8 ; 10 0 5 7 6 9 ; 32 0 0 0 ; 20 0 0 5")
     b.append("0 0 0 0 3 3 2 2 ; 10 0 1 5 2 7 ; 10 0 3 6 4 8 ; 10 0 5 7 6 9 ; 60 0 1 ; 20 1 0 5")
     b.append("0 0 0 0 3 3 3 3 ; 110 2 1 5 ; 110 2 3 6 ; 110 2 5 7 ; 133 2 ; 160 2 3 ; 132 3 0 0")
+    return b
+
+
+def consumer_fault_bases():
+    """a filled container handed to a consuming iterator or drain that is advanced 0..2 steps and
+    then finished by internal iteration (for_each: fate 2), by dropping it (fate 0) or by forgetting
+    it (fate 1): every closure / Drop fault position inside the consumer gets enumerated"""
+    b = []
+    fill_m = " ; ".join(f"10 0 {2 * i + 1} {5 + i} {2 * i + 2} {7 + i}" for i in range(4))
+    fill_s = " ; ".join(f"110 2 {i + 1} {5 + i}" for i in range(4))
+    for steps in (0, 1, 2):
+        for fate in (2, 0):
+            for kind in (0, 1, 2):
+                b.append(f"0 0 0 0 4 2 4 2 ; {fill_m} ; 41 0 {kind} {steps} {fate} ; 20 0 0 5 ; 10 0 20 5 21 7")
+            b.append(f"0 0 0 0 4 2 4 2 ; {fill_m} ; 34 0 {steps} {fate} ; 20 0 0 5 ; 10 0 20 5 21 7")
+            b.append(f"0 0 0 0 4 2 4 2 ; {fill_s} ; 141 2 {steps} {fate} ; 122 2 0 5 ; 110 2 20 5")
+            b.append(f"0 0 0 0 4 2 4 2 ; {fill_s} ; 134 2 {steps} {fate} ; 122 2 0 5 ; 110 2 20 5")
     return b
 
 
